@@ -245,3 +245,41 @@ Theorem C19_source_fast_enforce : forall k0 k1 k s p req,
   FastTie.run_fast_enforce k0 k1 k s p req = Some (fe_enforce k0 k1 k s p req).
 Proof. exact FastTie.tie_fe_enforce. Qed.
 Print Assumptions C19_source_fast_enforce.
+
+(* ---------- the container itself, from the source ----------
+   FastPolicy.__contains__, append, remove and __get_policy (behind __iter__ / __len__) regenerated from
+   casbin/model/policy_fast.py on this run (coq/gen/FastContGen.v; every statement one recognised step of FContLang.v;
+   __init__, __iter__, __len__ and in_cache compared with their recognised bodies), executed by FContLang's interpreter:
+   the container afterwards, the returned value and the errors are those of fp_contains / fp_append / fp_remove / fp_iter -
+   the container the theorems above are about. *)
+From PyCasbin Require FContLang FContTie.
+From PyCasbinGen Require FastContGen.
+
+Theorem C19_source_contains : forall k0 k1 p item,
+  FContLang.crun k0 k1 item 20 FastContGen.fp_contains_gen p = (p, Ok (FContLang.CVB (fp_contains k0 k1 p item))).
+Proof. exact FContTie.tie_fp_contains. Qed.
+Print Assumptions C19_source_contains.
+
+Theorem C19_source_append : forall k0 k1 p item,
+  FContLang.crun k0 k1 item 20 FastContGen.fp_append_gen p = FContTie.cres_unit (fp_append k0 k1 p item).
+Proof. exact FContTie.tie_fp_append. Qed.
+Print Assumptions C19_source_append.
+
+Theorem C19_source_remove : forall k0 k1 p item,
+  FContLang.crun k0 k1 item 20 FastContGen.fp_remove_gen p = FContTie.cres_bool (fp_remove k0 k1 p item).
+Proof. exact FContTie.tie_fp_remove. Qed.
+Print Assumptions C19_source_remove.
+
+Theorem C19_source_get_policy : forall k0 k1 p item,
+  FContLang.crun k0 k1 item 20 FastContGen.fp_get_policy_gen p = (p, Ok (FContLang.CVL (fp_iter p))).
+Proof. exact FContTie.tie_fp_get_policy. Qed.
+Print Assumptions C19_source_get_policy.
+
+Example C19_source_container_example :
+  let p1 := fst (FContLang.crun 1 2 [1003; 1008; 1011] 20 FastContGen.fp_append_gen fp_new) in
+  let p2 := fst (FContLang.crun 1 2 [1004; 1008; 1011] 20 FastContGen.fp_append_gen p1) in
+  snd (FContLang.crun 1 2 [1004; 1008; 1011] 20 FastContGen.fp_contains_gen p2) = Ok (FContLang.CVB true)
+  /\ snd (FContLang.crun 1 2 [1004; 1008; 1012] 20 FastContGen.fp_contains_gen p2) = Ok (FContLang.CVB false)
+  /\ snd (FContLang.crun 1 2 [] 20 FastContGen.fp_get_policy_gen p2) = Ok (FContLang.CVL [[1003; 1008; 1011]; [1004; 1008; 1011]])
+  /\ snd (FContLang.crun 1 2 [1003; 1008] 20 FastContGen.fp_append_gen p2) = Err EIndex.
+Proof. vm_compute. repeat split; reflexivity. Qed.
